@@ -118,6 +118,9 @@ TraceNext ==
        CASE t.ev = "rep" /\ t.mode = "live" -> CheckLive(t)
          [] t.ev = "rep" /\ t.mode = "vod" -> CheckStatic(t)
          [] t.ev = "ondemand" -> CheckOnDemand(t)
+         \* a stored file of a legal shape (the independent reader walks it) that the indexer refuses has no segment list at all:
+         \* nothing of it is described by any static manifest
+         [] t.ev = "index_failed" -> Report("C06_CountEqualsStored", FALSE, [file |-> t.file, shape |-> t.shape, error |-> t.error])
          [] OTHER -> TRUE
     /\ l' = l + 1
 TraceSpec == TraceInit /\ [][TraceNext]_l
